@@ -138,6 +138,16 @@ def run(tier, rep, ev):
         return 180 if not c.get("block") else 90
 
     outs = sandbox.run_cases(roundtrip.run_case, cases, timeout=120, nproc=16, timeout_fn=tmo)
+    # a child serves several cases: when the interpreter dies, the case it was at is run again in a child of its own (a C extension
+    # that corrupted the heap during an EARLIER case of the same child makes a later, innocent one crash anywhere - e.g. inside an
+    # import); only a case that kills a fresh interpreter as well is judged further
+    crashed = [k for k, o in enumerate(outs) if o.status == "crash"]
+    if crashed:
+        again = sandbox.run_cases(roundtrip.run_case, [cases[k] for k in crashed], timeout=300, nproc=4, slice_size=1)
+        for k, o2 in zip(crashed, again):
+            if o2.status != "crash":
+                outs[k] = o2
+        ev.cov["crashes_not_reproduced_in_a_fresh_child"] = sum(1 for k in crashed if outs[k].status != "crash")
     sess, sorig, streams, strorig = [], [], [], []
     failed = [k for k, (c, o) in enumerate(zip(cases, outs)) if o.status != "ok" or not o.value["session"][-1].get("ok", True)]
     # isolate the delegated BCJ library (filters next to anything the lzma module does not chain itself): the pieces py7zr handed to
